@@ -211,6 +211,7 @@ def linear_directed(rnd, cfg):
             tags.add("ends:multi")
     n_desc = 2 * n_u + len(end_specs)
     utexts = []
+    zero_unit = rnd.choice([0, 0, n_u - 1]) if (n_u >= 2 and not list_weights and not _TINY[0] and rnd.random() < 0.12) else None
     for ui, (tpl, name) in enumerate(units):
         if list_weights:
             tags.add("weights:list")
@@ -242,6 +243,10 @@ def linear_directed(rnd, cfg):
             t = _d(">", did, "|" + " ".join(_wnum(rnd, x) for x in tw) + "|")
         else:
             wh, wt = _w(rnd), _w(rnd)
+            if ui == zero_unit:
+                # a switched-off comonomer: its head has weight 0 while another unit's head is positive, so it is never entered
+                wh = rnd.choice(["|0|", "|0.0|", "| 0 |"])
+                tags.add("weights:zero_among_positive")
             if wh or wt:
                 tags.add("weights:scalar")
             h = _d("<", did, wh)
@@ -322,7 +327,16 @@ def undirected(rnd, cfg):
         tags.add("weights:list")
         utexts = [tpl.format(_d("$", did, dollar_list()), _d("$", did, dollar_list())) for tpl, _ in units]
     else:
-        utexts = [tpl.format(_d("$", did, _w(rnd)), _d("$", did, _w(rnd))) for tpl, _ in units]
+        utexts = []
+        zero_at = rnd.choice([0, 0, 2 * n_u - 1]) if (not _TINY[0] and rnd.random() < 0.12) else None
+        for ui, (tpl, _) in enumerate(units):
+            ws = [_w(rnd), _w(rnd)]
+            for j in (0, 1):
+                if zero_at == 2 * ui + j:
+                    # one '$' descriptor with weight 0 among positive ones: never chosen as a partner, still grows when open
+                    ws[j] = rnd.choice(["|0|", "|0.0|"])
+                    tags.add("weights:zero_among_positive")
+            utexts.append(tpl.format(_d("$", did, ws[0]), _d("$", did, ws[1])))
     mean_unit = sum(unit_mass(t) for t, _ in units) / n_u
     dist, fam = make_dist(rnd, mean_unit, rnd.choice([1, 2, 4, 6]), cfg.get("family"), cfg.get("safe_dist", False))
     tags.add("family:" + fam)
